@@ -70,9 +70,9 @@ impl Conf {
     }
 }
 
-struct Proc {
+pub struct Proc {
     child: Child,
-    port: u16,
+    pub port: u16,
 }
 
 impl Drop for Proc {
@@ -84,7 +84,7 @@ impl Drop for Proc {
 
 static NEXT: AtomicU16 = AtomicU16::new(0);
 
-fn start(conf: &Conf, server_bin: &Option<String>) -> Result<Proc, String> {
+pub fn start(conf: &Conf, server_bin: &Option<String>) -> Result<Proc, String> {
     for _ in 0..30 {
         let port = 15000 + ((std::process::id() as u16 % 20) * 400) + (NEXT.fetch_add(1, Ordering::Relaxed) % 400);
         let mut cmd = match server_bin {
@@ -103,7 +103,7 @@ fn start(conf: &Conf, server_bin: &Option<String>) -> Result<Proc, String> {
             if let Ok(Some(_)) = child.try_wait() {
                 break;
             }
-            if let Ok(mut c) = Cli::connect(port) {
+            if let Ok(mut c) = Cli::connect_plain(port) {
                 // make sure it is our server that answers
                 if ask(&mut c, &wire::simple(op::NOOP, 1)).map(|r| r.status == st::OK).unwrap_or(false) {
                     up = true;
@@ -212,7 +212,7 @@ pub fn run_c20(ctx: &Ctx) -> i32 {
                 let mut evals = 0u64;
                 // real-time TTL probe, started first (runs alongside the programs)
                 let ttl_key = format!("ttl-{}", ci).into_bytes();
-                let mut tc = Cli::connect(port).ok();
+                let mut tc = Cli::connect_plain(port).ok();
                 let t_set = Instant::now();
                 if let Some(c) = tc.as_mut() {
                     let _ = ask(c, &wire::store(op::SET, &ttl_key, b"t", 0, 3, 1, 0));
@@ -222,7 +222,7 @@ pub fn run_c20(ctx: &Ctx) -> i32 {
                 let mut texts = ErrTexts::default();
                 let mut outs: Vec<Vec<u8>> = vec![];
                 for (pi, (keys, cmds)) in programs.iter().enumerate() {
-                    let mut c = match Cli::connect(port) {
+                    let mut c = match Cli::connect_plain(port) {
                         Ok(c) => c,
                         Err(_) => break,
                     };
@@ -291,7 +291,7 @@ pub fn run_c20(ctx: &Ctx) -> i32 {
                 }
                 results.lock().unwrap().insert(ci, outs);
                 // item size limit: the configured one is the one enforced
-                if let Ok(mut c) = Cli::connect(port) {
+                if let Ok(mut c) = Cli::connect_plain(port) {
                     let l = conf.item_limit as usize;
                     let k = b"limitprobe";
                     let at = wire::store(op::SET, k, &vec![b'v'; l - 8 - k.len()], 0, 0, 1, 0);
@@ -312,7 +312,7 @@ pub fn run_c20(ctx: &Ctx) -> i32 {
                     let mut open = vec![];
                     let mut served = 0;
                     for i in 0..want + 1 {
-                        if let Ok(mut c) = Cli::connect(port) {
+                        if let Ok(mut c) = Cli::connect_plain(port) {
                             let wait = if i < want { Duration::from_secs(5) } else { Duration::from_millis(400) };
                             use std::io::Write;
                             let _ = c.s.write_all(&wire::simple(op::NOOP, 100 + i as u32).encode());
@@ -339,7 +339,7 @@ pub fn run_c20(ctx: &Ctx) -> i32 {
                         std::thread::sleep(Duration::from_millis(1000) - el);
                     }
                     let early = t_set.elapsed() < Duration::from_millis(1800);
-                    if let Ok(mut c) = Cli::connect(port) {
+                    if let Ok(mut c) = Cli::connect_plain(port) {
                         let r = ask(&mut c, &wire::get(op::GET, &ttl_key, 5));
                         *local.entry("ttl_probes".into()).or_insert(0) += 1;
                         if early && r.as_ref().map(|r| r.status != st::OK).unwrap_or(true) {
@@ -350,7 +350,7 @@ pub fn run_c20(ctx: &Ctx) -> i32 {
                     if el < Duration::from_millis(4500) {
                         std::thread::sleep(Duration::from_millis(4500) - el);
                     }
-                    if let Ok(mut c) = Cli::connect(port) {
+                    if let Ok(mut c) = Cli::connect_plain(port) {
                         let r = ask(&mut c, &wire::get(op::GET, &ttl_key, 6));
                         *local.entry("ttl_probes".into()).or_insert(0) += 1;
                         if r.as_ref().map(|r| r.status != st::NOT_FOUND).unwrap_or(true) {
